@@ -335,7 +335,7 @@ Section Image.
   (* node kinds inside the proved theorem: everything except arrays and LAMBDA *)
   Fixpoint fragment (e : ast) : bool :=
     match e with
-    | EArray _ | ELambdaDef _ _ | ELambdaCall _ _ => false
+    | ELambdaDef _ _ | ELambdaCall _ _ => false
     | ERangeOp l r | EConcat l r | ESum _ l r | EProd _ l r | EPow l r | ECmp _ l r =>
         fragment l && fragment r
     | EFun _ args | ENamedFun _ _ args => forallb fragment args
